@@ -158,7 +158,8 @@ def rand_plain(rnd, depth):
 
 def gen_cases(rnd, tier):
     cases = []
-    lens = c01.LENS_Q + c01.LENS_BOUNDARY + [1023, 1024, 4097] + (c01.LENS_BIG if tier == "thorough" else [])
+    base_lens = c01.LENS_Q + c01.LENS_BOUNDARY + [1023, 1024, 4097]
+    width = {"U2": 2, "I2": 2, "U4": 4, "I4": 4, "F4": 4, "U8": 8, "I8": 8, "F8": 8}
     for name in CLS:
         if name == "L":
             # (lists of 65535 items are left out: the model re-measures the remaining input per item, quadratic under vm_compute;
@@ -169,7 +170,10 @@ def gen_cases(rnd, tier):
             cases.append(("L", {"a": 1, "b": [2.5, "z"]}))
             continue
         var_kind = VAR_OF.get(name, name)
-        for n in lens:
+        # thorough: element counts whose BYTE length crosses the two-to-three length-byte boundary (65535/65536)
+        w = width.get(name, 1)
+        big = ([65536 // w - 1, 65536 // w, 65536 // w + 1] if w > 1 else c01.LENS_BIG) if tier == "thorough" else []
+        for n in base_lens + big:
             for _ in range(2 if n <= 17 else 1):
                 v = c01.scalar_value(var_kind, -1, rnd, n=n)
                 if isinstance(v, bytearray):
@@ -333,7 +337,7 @@ def run(tier, replay=None):
     cov["evaluations"] = merged["observed"]
     cov["distinct_nontrivial"] = len(distinct)
     cov["rule"] = ("constructor cases = (Item class or from_value, plain python value): every class x element counts {0,1,2,3,5,17,254..257"
-                   + (",65534..65537" if tier == "thorough" else "") + "} x input forms (scalars, lists, bytes, str), numeric boundaries, all byte values, random nested "
+                   + (", and the counts whose byte length is 65536-w, 65536, 65536+w" if tier == "thorough" else "") + "} x input forms (scalars, lists, bytes, str), numeric boundaries, all byte values, random nested "
                    "plain values for from_value; decode cases = C02's re-laid-out valid encodings (+ JIS-8 items, + corrupted streams compared with the model only); "
                    "each constructor case also encodes the same typed value through the variables API; non-trivial = accepted and longer than an empty item")
     cov["correspondence"] = {"constructor_stream": {k: v for k, v in stats.items() if k != "eval_errors"}, "decode_stream": {k: v for k, v in dstats.items() if k != "eval_errors"}}
